@@ -73,6 +73,7 @@ type model struct {
 	cWaiting   *ssa.Phi
 	enqPhi     ssa.Value // loop-carried local enqueue channel (phi) or the direct load
 	emitCall   ssa.CallInstruction
+	counterErr string    // why the loop-carried counters could not be identified ("" if they were)
 	stateVal   ssa.Value // the State value whose fields identify the counters (nil: identified structurally)
 
 	// worker model
@@ -85,6 +86,7 @@ type model struct {
 
 	// calling contexts
 	site     map[*ssa.Function]ssa.CallInstruction // unique plain call site of a package function
+	bindSite map[*ssa.Function]ssa.CallInstruction // unique call site of any kind (call, go, defer): parameters are bound to its arguments
 	refs     map[*ssa.Function]int                 // number of references of any kind
 	loopOnly map[*ssa.Function]bool
 
@@ -313,30 +315,77 @@ func discover(repo *load.Repo) (*model, error) {
 	if m.fREADY == nil {
 		return nil, fmt.Errorf("ready channel field of Scheduler not identified")
 	}
-	// LOOP, spawner, WORKER from the go statements reachable from New.
-	for _, fn := range ssax.WithAnon(m.fnNew) {
+	// LOOP, spawner, WORKER: the functions started with `go` (transitively) from New, told apart by structure:
+	// the loop is the *Scheduler method; the worker takes a receive-channel of *ScheduledJob and a
+	// send-channel of results; the spawner is whatever starts the workers.
+	isWorkerSig := func(f *ssa.Function) bool {
+		if f == nil || f.Signature.Recv() != nil || f.Parent() != nil {
+			return false
+		}
+		r, d := false, false
+		for _, p := range f.Params {
+			el := chanElemOr(p.Type())
+			if isPtrTo(el, m.SJ) {
+				r = true
+			} else if types.Identical(el, m.JobResult) {
+				d = true
+			}
+		}
+		if !r || !d {
+			return false
+		}
+		// the worker is the one that receives jobs itself (a spawner only passes the channels on)
+		recv := false
+		ssax.Instrs(f, func(in ssa.Instruction) {
+			if u, ok := in.(*ssa.UnOp); ok && u.Op == token.ARROW && isPtrTo(chanElemOr(u.X.Type()), m.SJ) {
+				recv = true
+			}
+		})
+		return recv
+	}
+	var started []*ssa.Function
+	seenF := map[*ssa.Function]bool{}
+	var scan func(fn *ssa.Function, depth int)
+	scan = func(fn *ssa.Function, depth int) {
+		if fn == nil || seenF[fn] || fn.Blocks == nil || depth > 3 {
+			return
+		}
+		seenF[fn] = true
+		for _, a := range fn.AnonFuncs {
+			_ = a
+		}
 		ssax.Instrs(fn, func(in ssa.Instruction) {
 			g, ok := in.(*ssa.Go)
 			if !ok {
 				return
 			}
-			if mc, ok := g.Call.Value.(*ssa.MakeClosure); ok && fn == m.fnNew {
-				m.fnSpawner, _ = mc.Fn.(*ssa.Function)
-				return
+			var callee *ssa.Function
+			if mc, ok := g.Call.Value.(*ssa.MakeClosure); ok {
+				callee, _ = mc.Fn.(*ssa.Function)
+			} else {
+				callee = g.Call.StaticCallee()
 			}
-			callee := g.Call.StaticCallee()
 			if callee == nil || callee.Pkg != m.pkg {
 				return
 			}
+			started = append(started, callee)
 			if r := callee.Signature.Recv(); r != nil && isPtrTo(r.Type(), m.Sched) {
 				m.fnLoop = callee
-			} else if r == nil && callee.Parent() == nil {
-				m.fnWorker = callee
+				return
 			}
+			if isWorkerSig(callee) {
+				m.fnWorker = callee
+				if fn != m.fnNew {
+					m.fnSpawner = fn
+				}
+				return
+			}
+			scan(callee, depth+1)
 		})
 	}
-	if m.fnLoop == nil || m.fnWorker == nil || m.fnLoop.Blocks == nil || m.fnWorker.Blocks == nil {
-		return nil, fmt.Errorf("Config.New does not start (with `go`) a *Scheduler method (loop) and a worker function")
+	scan(m.fnNew, 0)
+	if m.fnSpawner == nil && m.fnWorker != nil {
+		m.fnSpawner = m.fnNew
 	}
 	// Scheduler fields holding the limit and the error mode: by type (S29 checks how they are fed).
 	m.fConc = pick(fields(ss, func(v *types.Var) bool { return types.Identical(v.Type(), types.Typ[types.Int]) }), "concurrency")
@@ -421,8 +470,10 @@ func discover(repo *load.Repo) (*model, error) {
 // functions that only ever run on the scheduler-loop goroutine.
 func (m *model) computeSites() {
 	m.site = map[*ssa.Function]ssa.CallInstruction{}
+	m.bindSite = map[*ssa.Function]ssa.CallInstruction{}
 	m.refs = map[*ssa.Function]int{}
 	plain := map[*ssa.Function][]ssa.CallInstruction{}
+	anyCall := map[*ssa.Function][]ssa.CallInstruction{}
 	for _, p := range m.repo.SSA {
 		for _, fn := range load.SourceFuncs(p) {
 			ssax.Instrs(fn, func(in ssa.Instruction) {
@@ -439,6 +490,9 @@ func (m *model) computeSites() {
 					if c, ok := in.(*ssa.Call); ok && c.Call.Value == *op && !c.Call.IsInvoke() {
 						plain[callee] = append(plain[callee], c)
 					}
+					if c, ok := in.(ssa.CallInstruction); ok && c.Common().Value == *op && !c.Common().IsInvoke() {
+						anyCall[callee] = append(anyCall[callee], c)
+					}
 				}
 			})
 		}
@@ -449,6 +503,14 @@ func (m *model) computeSites() {
 				continue
 			}
 			m.site[fn] = cs[0]
+		}
+	}
+	for fn, cs := range anyCall {
+		if len(cs) == 1 && m.refs[fn] == 1 && fn.Parent() == nil && fn.Blocks != nil {
+			if obj := fn.Object(); obj != nil && obj.Exported() {
+				continue
+			}
+			m.bindSite[fn] = cs[0]
 		}
 	}
 }
@@ -544,7 +606,7 @@ func (m *model) key1(v ssa.Value) string {
 	switch x := v.(type) {
 	case *ssa.Parameter:
 		fn := x.Parent()
-		if c, ok := m.site[fn]; ok {
+		if c, ok := m.bindSite[fn]; ok {
 			for i, p := range fn.Params {
 				if p == x && i < len(c.Common().Args) {
 					return m.key(c.Common().Args[i])
@@ -1183,40 +1245,48 @@ func (m *model) mustPassX(from *ssa.BasicBlock, inside func(*ssa.BasicBlock) boo
 	return true
 }
 
-// between reports whether instruction s can execute after l and before i on
-// some path (l, s, i in one function; l dominates i).
+// between reports whether instruction s can execute after l and before i on some path that does not
+// execute l again in between (l, s, i in one function). Exact search on the instruction-level flow graph.
 func between(l, s, i ssa.Instruction) bool {
-	lb, sb, ib := l.Block(), s.Block(), i.Block()
-	after := func(a, b ssa.Instruction) bool { return ssax.InstrIndex(a) > ssax.InstrIndex(b) }
-	// s reachable after l
-	if sb == lb {
-		if !after(s, l) && !ssax.Reachable(lb, lb) {
-			return false
-		}
-		if !after(s, l) {
-			// only reachable by going round: then it passes l again before i
-			return false
-		}
-	} else if !reachFrom(lb, sb) {
-		return false
+	return instrReach(l, s, l) && instrReach(s, i, l)
+}
+
+// instrReach: some path leads from just after `from` to `to` without executing `avoid` first.
+func instrReach(from, to, avoid ssa.Instruction) bool {
+	type pos struct {
+		b *ssa.BasicBlock
+		k int
 	}
-	// i reachable from s without passing l again
-	if sb == ib {
-		if after(i, s) {
+	succs := func(p pos) []pos {
+		if p.k+1 < len(p.b.Instrs) {
+			return []pos{{p.b, p.k + 1}}
+		}
+		var out []pos
+		for _, sb := range p.b.Succs {
+			if len(sb.Instrs) > 0 {
+				out = append(out, pos{sb, 0})
+			}
+		}
+		return out
+	}
+	start := pos{from.Block(), ssax.InstrIndex(from)}
+	seen := map[pos]bool{}
+	stack := succs(start)
+	for len(stack) > 0 {
+		p := stack[len(stack)-1]
+		stack = stack[:len(stack)-1]
+		if seen[p] {
+			continue
+		}
+		seen[p] = true
+		in := p.b.Instrs[p.k]
+		if in == to {
 			return true
 		}
-	}
-	avoid := map[*ssa.BasicBlock]bool{}
-	if sb != lb {
-		avoid[lb] = true
-	}
-	for _, succ := range sb.Succs {
-		if succ == ib && !avoid[ib] {
-			return true
+		if in == avoid {
+			continue
 		}
-		if ssax.ReachableAvoiding(succ, ib, avoid) {
-			return true
-		}
+		stack = append(stack, succs(p)...)
 	}
 	return false
 }
